@@ -85,6 +85,20 @@ def judge(ctx, q, data, info):
     key = astx.dump_fields(q)
     witness = {"query": astx.unparse(q), "info": info}
     arg = astx.clone(q)
+    if ctx.rnd.random() < 0.3:
+        # the query as a back end gets it: through pickle (worker process, cache) - equal names, other string objects
+        import pickle
+
+        arg = pickle.loads(pickle.dumps(arg))
+        ctx.count("inputs-through-pickle")
+    elif ctx.rnd.random() < 0.2:
+        # names built at run time (read from a text form)
+        for n in astx.walk_nodes(arg):
+            if isinstance(n, ast.Attribute):
+                n.attr = "".join(list(n.attr))
+            elif isinstance(n, ast.Name):
+                n.id = "".join(list(n.id))
+        ctx.count("inputs-with-names-built-at-run-time")
     if ctx.rnd.random() < 0.25:
         # a caller-supplied name list (a fresh list object every time, contents vary from call to call)
         names = ctx.rnd.sample(refimpl.OPERATOR_NAMES + ["Filter", "select", "where"], ctx.rnd.randint(1, 6))
@@ -167,6 +181,9 @@ DIRECTED = [
     "EventDataset().Select(lambda e: (e.Select, e.jets.Count, Select)[0] if False else e.x)",
     "EventDataset().Filter(lambda e: e.x).select(lambda e: e.jets.Count())",
     "f(x.Select(lambda a: a.Where(lambda b: b.First())), k=y.Count())",
+    # keyword arguments of the operator call itself
+    "ds.Where(filter=lambda x: x != 1)", "ds.Aggregate(0, func=lambda a, b: a + b.Count())", "ds.Select(lambda e: e.jets.Select(f=lambda j: j.trks.Where(filter=lambda t: t.pt > 1)))",
+    "ds.Select(lambda e: e.x, **opts).First(default=ds.Count(strict=True))", "Select(ds.Where(lambda e: e.ok, note='n'), lambda e: e.jets.Count(**kw))",
     "e.jets(calibration=e.raw.Select(lambda r: r.scale()), **{'k': e.trks.Count()})",
     "ds.First().jets.Select(lambda j: j.pt)[0].trks.Count()",
     "e.m(*e.jets.Select(lambda j: j.pt), k=[t.trks.Count() for t in e.jets.Where(lambda j: j.ok)])",
